@@ -80,7 +80,16 @@ template<class T> struct KllF {
     std::string t = s.to_string(); size_t p = t.find("Levels"); p = p == std::string::npos ? p : t.find(':', p);
     return p == std::string::npos ? -1 : atol(t.c_str() + p + 1);
   }
-  static void mechanism(Ev&, const Sk&) {}
+  // tier B: the nominal capacity of every level, as to_string(true) prints it ("index: nominal capacity, actual size")
+  static void mechanism(Ev& e, const Sk& s) {
+    std::string t = s.to_string(true, false); size_t p = t.find("### KLL sketch levels:");
+    std::vector<long> caps;
+    if (p != std::string::npos) { p = t.find("actual size", p); size_t end = t.find("### End sketch levels", p);
+      while (p != std::string::npos && (p = t.find(": ", p)) != std::string::npos && p < end) { caps.push_back(atol(t.c_str() + p + 2)); p += 2; } }
+    e.il("caps", caps);
+  }
+  // the extreme configurations: the largest k, 2^15 (2k no longer fits 16 bits) and its neighbour
+  static unsigned extreme_k(long seg) { static const unsigned KK[3] = {65535, 32768, 32767}; return KK[seg % 3]; }
   // the k the published error is computed from: "min K" of to_string() (smallest k that contributed compacted data)
   static void published(const Sk& s, long long& pk, double& eps, double& eps_pk) {
     std::string t = s.to_string(); size_t p = t.find("min K"); p = p == std::string::npos ? p : t.find(':', p);
@@ -145,6 +154,7 @@ template<class T> struct ReqF {
     must_throw = cnt > 0;     // a non-empty operand of the other mode cannot be merged; what happens with an empty one is not claimed
     return true;
   }
+  static unsigned extreme_k(long seg) { return seg % 2 ? 1024 : 512; }
   static unsigned min_k() { return 4; }
   static unsigned draw_k(vt::Rng& g, long maxk) { return g.chance(50) ? 4 : (unsigned)g.range(4, maxk); }
   // the space the sketch publishes: retained items against "Capacity items" of to_string()
@@ -166,6 +176,7 @@ template<class T> struct ClassicF {
   static Sk make(unsigned k, bool) { return Sk((uint16_t)k); }
   static void on_new(Ev&, const Sk&) {}
   static bool refusable(const Sk&, int, std::unique_ptr<Sk>&, bool&) { return false; }   // every k is a power of two: always compatible
+  static unsigned extreme_k(long seg) { return seg % 2 ? 32768 : 16384; }
   static unsigned min_k() { return 2; }
   static unsigned draw_k(vt::Rng& g, long maxk) { unsigned k = 2; while (k * 2 <= (unsigned)maxk && g.chance(55)) k *= 2; return k; }
   static void space(const Sk&, long long& used, long long& bound) { used = 0; bound = 0; }   // documented formula, computed by the specification
@@ -491,6 +502,8 @@ template<class F, class T> static void segment(vt::Rng& g, long seg, long events
     }
     do_ser(0, 1, 0);
   }
+  // DIRECTED: an extreme k (the top of "all k") with a short stream: contract, published space bound and (tier B) the level capacities
+  { mk(3, F::extreme_k(seg)); uint64_t os = opseed ^ 0x7e7eULL; for (int t = 0; t < 24; t++) update_one(3, next_value(shape[3], g), false, os++, t == 23); observe(3, os); }
   mk(0); mk(1);
   for (long step = 0; step < events; step++) {
     int i = (int)g.below(NS);
